@@ -242,12 +242,13 @@ func runC05(c *Ctx) {
 		if load.RelPkg(f) != "ovmf" || c.isTestFunc(f) {
 			continue
 		}
-		for _, b := range f.Blocks {
-			for _, in := range b.Instrs {
-				if al, ok := in.(*ssa.Alloc); ok && namedIs(al.Type(), abiPkg, "EFIHOBHandoffInfoTable") {
-					builders = append(builders, f)
-				}
-			}
+		// the function that writes the hand-off table into the block (the table value itself may be prepared by a
+		// helper; descriptor loops and padding may be helpers too: they are summarised below)
+		if len(callsIn(f, func(call ssa.CallInstruction) bool {
+			cal := call.Common().StaticCallee()
+			return cal != nil && cal.Name() == "WriteTo" && cal.Signature.Recv() != nil && namedIs(cal.Signature.Recv().Type(), abiPkg, "EFIHOBHandoffInfoTable")
+		})) > 0 {
+			builders = append(builders, f)
 		}
 	}
 	c.S.Floor("R3", "hand-off block builders in package ovmf", 1, len(builders))
@@ -271,7 +272,13 @@ func runC05(c *Ctx) {
 		unacc := c.extConst(abiPkg, "EFIResourceMemoryUnaccepted")
 		seen := map[int]int{}
 		r := &esp.Rule{Name: "C05.R3"}
-		r.Relevant = func(*ssa.Function) bool { return false }
+		hobRegion := map[*ssa.Function]bool{}
+		for _, g := range unexportedRegion(f) {
+			if g != f {
+				hobRegion[g] = true
+			}
+		}
+		r.Relevant = func(g *ssa.Function) bool { return hobRegion[g] }
 		r.Match = func(in ssa.Instruction) []esp.Ev {
 			call, ok := in.(ssa.CallInstruction)
 			if !ok {
